@@ -498,7 +498,7 @@ fn main() {
     // Peer Up, every Peer Down reason, Statistics and Route Mirroring bodies), ended in each way: the base streams
     // above are few (each is cut at every byte), these are many and differ in what the messages look like
     for _ in 0..(if args.thorough { 2500 } else { 300 }) {
-        let mut msgs = vec![if g.chance(1, 2) { initiation() } else { initiation_variant(g.below(N_INITIATION_VARIANTS)) }];
+        let mut msgs = vec![match g.below(5) { 0 | 1 => initiation(), 2 | 3 => initiation_variant(g.below(N_INITIATION_VARIANTS)), _ => initiation_long(&mut g) }];
         let np = g.range(1, 3) as usize;
         for i in 0..np { msgs.push(if g.chance(2, 3) { peer_up(i) } else { peer_up_with_info(i, g.below(3)) }); }
         for n in 0..g.range(1, 5) {
